@@ -607,3 +607,43 @@ def collection_merge_takes_the_data_of_the_only_assigned_side_or_refuses(ma: int
     for k in range(3):
         assert (got[k] is None) == (want[k] is None) and (want[k] is None or eq(got[k], want[k])), "identical to its source / unchanged"
     assert all((p is None) == (q is None) and (p is None or eq(p, q)) for p, q in zip(leading(B), b0)), "the source is not changed"
+
+
+@lemma(gen={"ng": (1, 2), "n1": (1e-4, 0.1), "n2": (1e-4, 0.1), "s": (0.1, 5.0), "tr1": (0.1, 20.0), "tr2": (0.1, 20.0)},
+       overrides={"armi.nuclearDataIO.xsCollections:sparse": "DenseSparse"})
+def one_creator_used_again_after_the_library_grew_sees_the_new_nuclide(
+        ng: int, n1: float, n2: float, s: float, g1: float, g2: float, f1: float, f2: float, nu1: float, nu2: float, tr1: float, tr2: float,
+        e11: float, e12: float, e21: float, e22: float, i11: float, i12: float, i21: float, i22: float, m11: float, m12: float, m21: float, m22: float):
+    """ONE MacroscopicCrossSectionCreator and ONE library object used twice: macros for a composition of the nuclides the
+    library holds, then the library grows IN PLACE by a nuclide of the same suffix (as IsotxsLibrary.merge does) and
+    macros are built again for a composition containing the new nuclide: every vector reaction AND every scatter
+    matrix (hence total scatter and removal) is the density-weighted sum over the CURRENT nuclides - nothing computed
+    for the earlier call may be reused."""
+    ng = choose(ng, 1, 2)
+    assume(n1 > 0 and n2 > 0 and tr1 > 0 and tr2 > 0 and s > 0)
+    zero = [0.0, 0.0]
+    base = {"nGamma": [g1, g2], "nalph": zero, "np": zero, "nd": zero, "nt": zero, "fission": [f1, f2], "n2n": zero,
+            "neutronsPerFission": [nu1, nu2], "chi": [1.0, 0.0], "total": [tr1, tr2], "transport": [tr1, tr2]}
+    sc = {"elasticScatter": [[e11, e12], [e21, e22]], "inelasticScatter": [[i11, i12], [i21, i22]], "n2nScatter": [[m11, m12], [m21, m22]]}
+    lib = full_library(1, ng, base, [1.0, s], sc)
+    both = full_library(2, ng, base, [1.0, s], sc)
+    mc = Creator()
+    m1 = mc.createMacrosFromMicros(lib, new(Block, dens={"A": n1}))
+    for g in range(ng):
+        for h in range(ng):
+            assert eq(m1["elasticScatter"].a[g][h], n1 * sc["elasticScatter"][g][h])
+    lib.nuclides["B" + SFX] = both.nuclides["B" + SFX]  # the same library object now holds a second nuclide
+    m2 = mc.createMacrosFromMicros(lib, new(Block, dens={"A": n1, "B": n2}))
+    w = n1 + n2 * s
+    for g in range(ng):
+        assert eq(m2["nGamma"][g], w * base["nGamma"][g]) and eq(m2["fission"][g], w * base["fission"][g]), "vector reactions see the new nuclide"
+        for h in range(ng):
+            for name in ["elasticScatter", "inelasticScatter", "n2nScatter"]:
+                assert eq(m2[name].a[g][h], w * sc[name][g][h]), "and so do the scatter matrices"
+            assert eq(m2.totalScatter.a[g][h], w * (sc["elasticScatter"][g][h] + sc["inelasticScatter"][g][h] + 2.0 * sc["n2nScatter"][g][h]))
+        out = sum([m2.totalScatter.a[h][g] for h in range(ng)]) - m2.totalScatter.a[g][g]
+        assert eq(m2.removal[g], m2.absorption[g] - m2.n2n[g] + out)
+    m3 = mc.createMacrosFromMicros(lib, new(Block, dens={"B": n2}))  # a composition of the NEW nuclide alone
+    for g in range(ng):
+        for h in range(ng):
+            assert eq(m3["elasticScatter"].a[g][h], n2 * s * sc["elasticScatter"][g][h]), "the new nuclide alone: not zero"
